@@ -954,6 +954,47 @@ def ccn_case(ctx, k):
          lambda: (lambda v: (v[s1], v[s2]))(g.internal_betweenness(net, s2)),
          (ib2[s1], ib2[s2])),
     ]
+    # sub-block accessors of the stored similarity, the layer networks and
+    # the geographic cross distances (the distance matrix itself is the
+    # grid's; here: the right block of it)
+    S32 = np.float32(np.abs(A.astype(float)))
+    Dg = np.asarray(net.grid.angular_distance(), dtype=float)
+    cadj = A[np.ix_(s1, s2)].astype(float)
+    with np.errstate(all="ignore"):
+        cald = (cadj * Dg[np.ix_(s1, s2)]).sum(axis=1) / cadj.sum(axis=1)
+        cald_r = (cadj * Dg[np.ix_(s1, s2)]).sum(axis=0) / cadj.sum(axis=0)
+    rows += [
+        ("similarity_measure_1", net.similarity_measure_1,
+         lambda: net.similarity_measure()[np.ix_(s1, s1)],
+         S32[np.ix_(s1, s1)]),
+        ("similarity_measure_2", net.similarity_measure_2,
+         lambda: net.similarity_measure()[np.ix_(s2, s2)],
+         S32[np.ix_(s2, s2)]),
+        ("cross_similarity_measure", net.cross_similarity_measure,
+         lambda: net.similarity_measure()[np.ix_(s1, s2)],
+         S32[np.ix_(s1, s2)]),
+        ("cross_link_distance", net.cross_link_distance,
+         lambda: net.distance()[np.ix_(s1, s2)], Dg[np.ix_(s1, s2)]),
+        ("cross_average_link_distance", net.cross_average_link_distance,
+         lambda: net.cross_average_link_distance(reverse=False), cald),
+        ("cross_average_link_distance(reverse)",
+         lambda: net.cross_average_link_distance(reverse=True),
+         lambda: net.cross_average_link_distance(True), cald_r),
+        ("network_1", lambda: np.asarray(net.network_1().adjacency),
+         lambda: g.internal_adjacency(net, s1),
+         ref.internal_adjacency(A, s1)),
+        ("network_2", lambda: np.asarray(net.network_2().adjacency),
+         lambda: g.internal_adjacency(net, s2),
+         ref.internal_adjacency(A, s2)),
+        ("network_1.grid",
+         lambda: np.asarray(net.network_1().grid.lat_sequence()),
+         lambda: np.asarray(net.grid_1.lat_sequence()),
+         np.asarray(g1.lat_sequence())),
+        ("network_2.grid",
+         lambda: np.asarray(net.network_2().grid.lon_sequence()),
+         lambda: np.asarray(net.grid_2.lon_sequence()),
+         np.asarray(g2.lon_sequence())),
+    ]
     if n1 > 1 and n2 > 1:
         rows.append(("internal_link_density", net.internal_link_density,
                      each(lambda s: g.internal_link_density(net, s)),
@@ -981,7 +1022,16 @@ def ccn_case(ctx, k):
             return isinstance(u, tuple) and len(u) == len(v) and \
                 all(same(p, q) for p, q in zip(u, v))
         return same(u, v)
+    eq_exact = eq
+
+    def eq_f32(u, v):
+        # float32 distances / their sums; 0/0 = nan for nodes without cross
+        # links on both sides
+        u, v = np.asarray(u, float), np.asarray(v, float)
+        return u.shape == v.shape and bool(np.allclose(
+            u, v, rtol=1e-6, atol=1e-7, equal_nan=True))
     for m, wrap, gen, want in rows:
+        eq = eq_f32 if "link_distance" in m else eq_exact
         ok1, v1 = ctx.call(wrap)
         ok2, v2 = ctx.call(gen)
         ctx.evals(2)
